@@ -274,6 +274,123 @@ fn check_plain_pair(a: &str, b: &str, label: &str, out: &mut CaseOut) {
     }
 }
 
+
+// ------------------------------------------------------------------------------------------------
+// Proper prefixes and structural (delimiter level) mutations: inputs that make the comparator's two
+// event streams run in step for a long way and then end, or fail, at different points.
+
+/// (byte offset, char) of every character outside string literals (the quotes themselves excluded).
+fn outside_literals(t: &str) -> Vec<(usize, char)> {
+    let (mut in_str, mut esc) = (false, false);
+    let mut acc = Vec::new();
+    for (i, c) in t.char_indices() {
+        if in_str {
+            if esc {
+                esc = false;
+            } else if c == '\\' {
+                esc = true;
+            } else if c == '"' {
+                in_str = false;
+            }
+        } else if c == '"' {
+            in_str = true;
+        } else {
+            acc.push((i, c));
+        }
+    }
+    acc
+}
+
+/// A proper prefix of `t` (possibly empty), cut at a character boundary: after a delimiter, one
+/// character short of the end, or anywhere. `None` for the empty text.
+fn proper_prefix(t: &str, rng: &mut Rng) -> Option<(String, &'static str)> {
+    if t.is_empty() {
+        return None;
+    }
+    let bounds: Vec<usize> = t.char_indices().map(|(i, _)| i).collect();
+    let (k, how) = match rng.below(4) {
+        0 => (*bounds.last().unwrap(), "all-but-last-char"),
+        1 => {
+            let delims: Vec<usize> = outside_literals(t).into_iter().filter(|(i, c)| "{}():,;@".contains(*c) && i + c.len_utf8() < t.len()).map(|(i, c)| i + c.len_utf8()).collect();
+            if delims.is_empty() {
+                (*rng.pick(&bounds), "anywhere")
+            } else {
+                (*rng.pick(&delims), "after-delimiter")
+            }
+        }
+        2 => {
+            // just before a closing delimiter: everything open at that point stays open
+            let closers: Vec<usize> = outside_literals(t).into_iter().filter(|(_, c)| "})".contains(*c)).map(|(i, _)| i).collect();
+            if closers.is_empty() {
+                (*rng.pick(&bounds), "anywhere")
+            } else {
+                (*rng.pick(&closers), "before-closer")
+            }
+        }
+        _ => (*rng.pick(&bounds), "anywhere"),
+    };
+    Some((t[..k].to_string(), how))
+}
+
+/// Byte offset just after the `n`-th non-blank character of `t` (its length when there are fewer).
+fn offset_after_nonblank(t: &str, n: usize) -> usize {
+    let mut seen = 0;
+    for (i, c) in t.char_indices() {
+        if !c.is_whitespace() {
+            seen += 1;
+            if seen == n {
+                return i + c.len_utf8();
+            }
+        }
+    }
+    t.len()
+}
+
+/// One delimiter-level edit outside string literals: a delimiter removed, inserted, or exchanged
+/// for another one. `None` when the text offers no site.
+fn delimiter_edit(t: &str, rng: &mut Rng) -> Option<(String, &'static str)> {
+    let out = outside_literals(t);
+    let delims: Vec<(usize, char)> = out.iter().copied().filter(|(_, c)| "{}():,;@".contains(*c)).collect();
+    let mut s = t.to_string();
+    match rng.below(4) {
+        0 | 1 if !delims.is_empty() => {
+            let (i, c) = *rng.pick(&delims);
+            if rng.bool() {
+                s.remove(i);
+                Some((s, match c { '{' | '(' => "opener-removed", '}' | ')' => "closer-removed", ':' => "colon-removed", '@' => "at-removed", _ => "separator-removed" }))
+            } else {
+                let to = *rng.pick(&['{', '}', '(', ')', ':', ',']);
+                if to == c {
+                    return None;
+                }
+                s.replace_range(i..i + 1, &to.to_string());
+                Some((s, "delimiter-exchanged"))
+            }
+        }
+        _ => {
+            // positions outside literals, plus the end of the text
+            let mut sites: Vec<usize> = out.iter().map(|(i, _)| *i).collect();
+            sites.push(t.len());
+            let at = *rng.pick(&sites);
+            let (ins, how) = *rng.pick(&[("}", "closer-inserted"), (")", "closer-inserted"), ("{", "opener-inserted"), ("(", "opener-inserted"), (":", "colon-inserted"), (",", "separator-inserted"), ("@", "at-inserted")]);
+            s.insert_str(at, ins);
+            Some((s, how))
+        }
+    }
+}
+
+/// The text with one blank added where the grammar skips blanks (after `{`, `(`, `,`, `;`): the same
+/// token sequence in a different string. `None` when there is no such place.
+fn respaced(t: &str, rng: &mut Rng) -> Option<String> {
+    let sites: Vec<usize> = outside_literals(t).into_iter().filter(|(_, c)| "{(,;".contains(*c)).map(|(i, _)| i + 1).collect();
+    if sites.is_empty() {
+        return None;
+    }
+    let mut s = t.to_string();
+    s.insert(*rng.pick(&sites), ' ');
+    Some(s)
+}
+
 // ------------------------------------------------------------------------------------------------
 // Hand-written pool of short spellings (all ordered pairs).
 
@@ -444,6 +561,74 @@ pub fn run(s: &mut Session) {
         },
     ); }
 
+
+    // Proper prefixes and delimiter-level edits: the two event streams of a pair run in step for a
+    // long way and then one of them ends or fails. Validity is decided by the parser as everywhere
+    // else (a prefix such as `@a` of `@a(1)` is itself valid), the pair kinds only name the workload.
+    let cases = s.args.budget(60_000, 6_000_000);
+    if crate::want(s, "prefix-pairs") { s.part(
+        "prefix-pairs",
+        "a generated text vs. its own proper prefix (cut after a delimiter / before a closer / one char short / anywhere), two different prefixes of one text, a prefix vs. itself, a prefix vs. the whole text in another formatting, prefixes of two whitespace-only re-formattings holding the same tokens, and texts with one delimiter removed / inserted / exchanged vs. the original, vs. a second such edit and vs. themselves re-spaced: whenever one side does not parse comparison must be string equality (in both argument orders), otherwise it must agree with the parsed values; equal => same recon_hash; ReconKey agrees; non-trivial when at least one text is invalid; distinct by the two texts",
+        false,
+        cases,
+        |i, rng, out| {
+            let syn = gen_syn(rng);
+            let orig = render(&syn, if rng.bool() { Mode::Canonical } else { Mode::Random(rng.fork()) });
+            let made: Option<(String, String, String)> = match i % 9 {
+                0 => proper_prefix(&orig, rng).map(|(p, how)| (orig.clone(), p, format!("prefix:text-vs-own-prefix/{how}"))),
+                1 => proper_prefix(&orig, rng).map(|(p, how)| (p, orig.clone(), format!("prefix:text-vs-own-prefix/{how}"))),
+                2 => match (proper_prefix(&orig, rng), proper_prefix(&orig, rng)) {
+                    (Some((p, _)), Some((q, _))) if p != q => Some((p, q, "prefix:two-prefixes-of-one-text".to_string())),
+                    _ => None,
+                },
+                3 => proper_prefix(&orig, rng).map(|(p, _)| (p.clone(), String::from(p.as_str()), "prefix:identical".to_string())),
+                4 => proper_prefix(&orig, rng).map(|(p, _)| {
+                    let whole = render(&syn, Mode::Random(rng.fork()));
+                    (p, whole, "prefix:vs-whole-text-reformatted".to_string())
+                }),
+                5 => {
+                    // the same tokens up to the cut, blanks differ: both fail at the same event
+                    let variant = *rng.pick(&["whitespace/spaces", "whitespace/tabs", "whitespace/newlines"]);
+                    let (a, b) = (render(&syn, Mode::Canonical), render(&syn, Mode::Variant(variant)));
+                    let total = a.chars().filter(|c| !c.is_whitespace()).count();
+                    if total < 2 {
+                        None
+                    } else {
+                        let n = 1 + rng.usize_below(total - 1);
+                        let (ka, kb) = (offset_after_nonblank(&a, n), offset_after_nonblank(&b, n));
+                        Some((a[..ka].to_string(), b[..kb].to_string(), "prefix:same-tokens-other-blanks".to_string()))
+                    }
+                }
+                6 => delimiter_edit(&orig, rng).map(|(m, how)| if rng.bool() { (m, orig.clone(), format!("delimiter-edit:vs-original/{how}")) } else { (orig.clone(), m, format!("delimiter-edit:vs-original/{how}")) }),
+                7 => match (delimiter_edit(&orig, rng), delimiter_edit(&orig, rng)) {
+                    (Some((m1, _)), Some((m2, _))) if m1 != m2 => Some((m1, m2, "delimiter-edit:two-edits-of-one-text".to_string())),
+                    _ => None,
+                },
+                _ => delimiter_edit(&orig, rng).and_then(|(m, _)| respaced(&m, rng).map(|m2| (m, m2, "delimiter-edit:vs-itself-respaced".to_string()))),
+            };
+            let Some((a, b, label)) = made else {
+                out.count("no_site");
+                return;
+            };
+            let kind = label.split('/').next().unwrap_or("");
+            out.count(kind);
+            match (guard(|| parse_value(&a).is_ok()), guard(|| parse_value(&b).is_ok())) {
+                (Ok(va), Ok(vb)) => {
+                    out.nontrivial = !va || !vb;
+                    out.count(match (va, vb) { (true, true) => "both_texts_valid", (false, false) => "both_texts_invalid", _ => "one_text_invalid" });
+                    if !va && !vb && a != b {
+                        out.count("both_invalid_and_different_strings");
+                    }
+                }
+                _ => {}
+            }
+            check_plain_pair(&a, &b, &label, out);
+            if rng.chance(1, 500) {
+                out.set_sample(json!({"label": label, "a": clip(&a), "b": clip(&b)}));
+            }
+        },
+    ); }
+
     // Bounded-exhaustive: every string of up to L tokens over a small alphabet; all ordered pairs
     // of the valid ones.
     let max_len = s.args.extra_u64("enum-len").unwrap_or(if s.args.scale < 0.5 { 3 } else { 6 }) as usize;
@@ -473,6 +658,10 @@ pub fn run(s: &mut Session) {
         frontier = next;
     }
     let total_strings = strings.len();
+    // All strings (valid or not) of up to `all_len` tokens, for the part that pairs every string
+    // with every other one.
+    let all_len = s.args.extra_u64("enum-all-len").unwrap_or(if s.args.scale < 0.05 { 1 } else if s.args.scale < 0.5 { 2 } else if s.args.thorough() { 4 } else { 3 }) as usize;
+    let short: Vec<(String, Vec<u8>)> = strings.iter().filter(|(_, k)| k.len() <= all_len).cloned().collect();
     let valid: Vec<(String, Vec<u8>, Value, u64)> = strings
         .into_iter()
         .filter_map(|(t, k)| {
@@ -600,6 +789,35 @@ pub fn run(s: &mut Session) {
                     let label = format!("token-enum:only-in-one=[{d1}]/only-in-other=[{d2}]");
                     report(a, b, &label, &rules, None, out);
                 }
+            }
+        },
+    ); }
+
+    // Every short string, valid or not, against every other one.
+    let n_short = short.len();
+    s.note(format!("token-enum-all-strings: {n_short} strings of <= {all_len} tokens"));
+    if crate::want(s, "token-enum-all-strings") { s.part(
+        "token-enum-all-strings",
+        "EVERY string of up to L tokens (L = 3; thorough 4; 2 or 1 when scaled down) over the same alphabet, valid or not; one case per string a: all pairs (a, b) with b not before a in the enumeration, compared in both argument orders: whenever one side does not parse compare == (a == b), otherwise compare == (parsed values equal); symmetric; equal => same recon_hash; ReconKey agrees; no panic; non-trivial always; distinct by a",
+        true,
+        n_short as u64,
+        |i, _rng, out| {
+            let (a, _ka) = &short[i as usize];
+            out.nontrivial = true;
+            out.sig(a);
+            let a_valid = matches!(guard(|| parse_value(a).is_ok()), Ok(true));
+            out.count(if a_valid { "valid_rows" } else { "invalid_rows" });
+            for (b, _kb) in &short[i as usize..] {
+                let rules = pair_rules(a, b, Some(out));
+                if !rules.is_empty() {
+                    // (One coarse label: the rule names already say which side is valid, and a
+                    // comparator fault hits thousands of these pairs at once.)
+                    report(a, b, "token-enum-all", &rules, None, out);
+                }
+            }
+            out.add("pairs", (n_short - i as usize) as u64);
+            if i % 400 == 7 {
+                out.set_sample(json!({"a": a, "a_valid": a_valid, "partners": n_short - i as usize}));
             }
         },
     ); }
